@@ -23,12 +23,16 @@ type c09Params struct {
 	Overlap bool // senders start while the registration lines are still in flight
 	Pings   int  // server PINGs arriving meanwhile (answered by the built-in handler)
 	HPong   bool // the foreground handler sends a PONG of its own between its first and second line
+	SrvErr  bool // the server sends an ERROR line (and keeps the connection open) while the senders are at work
 }
 
 func (p c09Params) name() string {
 	n := fmt.Sprintf("sendorder/senders=%dx%d/events=%dx%d/slow=%v/cap=%d/overlap=%v", p.Senders, p.Lines, p.Events, p.HLines, p.Slow, p.ChanCap, p.Overlap)
 	if p.Pings > 0 || p.HPong {
 		n += fmt.Sprintf("/pings=%d/hpong=%v", p.Pings, p.HPong)
+	}
+	if p.SrvErr {
+		n += "/server-error-line"
 	}
 	return n
 }
@@ -49,7 +53,7 @@ func c09Scenario(p c09Params) *explore.Scenario {
 	sc := &explore.Scenario{
 		Family: "sendorder",
 		Name:   p.name(),
-		Params: map[string]interface{}{"senders": p.Senders, "lines": p.Lines, "events": p.Events, "hlines": p.HLines, "slow": p.Slow, "chancap": p.ChanCap, "overlap": p.Overlap, "pings": p.Pings, "hpong": p.HPong},
+		Params: map[string]interface{}{"senders": p.Senders, "lines": p.Lines, "events": p.Events, "hlines": p.HLines, "slow": p.Slow, "chancap": p.ChanCap, "overlap": p.Overlap, "pings": p.Pings, "hpong": p.HPong, "server_error": p.SrvErr},
 		Opt:    vx.Options{ChanCap: p.ChanCap, MaxSteps: 40000},
 	}
 	total := 2 + p.Senders*p.Lines + p.Events*p.HLines + p.Pings
@@ -112,6 +116,12 @@ func c09Scenario(p c09Params) *explore.Scenario {
 					vc.SendLines(fmt.Sprintf(":o!u@h PRIVMSG #c :e%d", e))
 				}
 			})
+		}
+		if p.SrvErr {
+			vc.SendLines("ERROR :Closing Link: me[host] (this server only says so)", ":irc.example NOTICE me :*** You are still here")
+			if !p.Overlap {
+				vx.Quiesce()
+			}
 		}
 		if p.Pings > 0 {
 			env.Go("server-pings", func() {
@@ -389,6 +399,11 @@ func c09LadderSession(lens []int) (oracle, msg string) {
 	for _, n := range lens {
 		want = append(want, line(n))
 	}
+	return c09LinesSession(want)
+}
+
+// c09LinesSession hands the given lines to Raw over one connection and compares the wire byte for byte.
+func c09LinesSession(want []string) (oracle, msg string) {
 	var got string
 	o := RunSeq(vx.Options{}, func(env *vx.Env) {
 		s, err := StartSession(env, "me", nil, nil)
@@ -435,6 +450,14 @@ func c09LadderJob() Job {
 				lens = append(lens, n)
 			}
 		}
+		// lines that begin or end in white space, or consist of it (the bytes are the caller's, all of them)
+		edged := []string{" lead", "trail ", "  both  ", "\ttab\t", "TOPIC #c : ", "PRIVMSG #c :x  ", "PRIVMSG #c : indented", " ", "\t", "\u00a0nbsp\u00a0", "\u0085nel\u0085", "\v\f", "x\x00"}
+		for _, l := range edged {
+			e.Case("edged " + Q(l))
+		}
+		if oracle, msg := c09LinesSession(edged); oracle != "" {
+			e.Fail("sendorder", oracle, "Raw lines with white space at the edges", msg, map[string]interface{}{"lines": edged})
+		}
 		for i := 0; i < len(lens); i += 100 {
 			j := i + 100
 			if j > len(lens) {
@@ -458,6 +481,23 @@ func c09LadderJob() Job {
 func init() {
 	prev := replayInput
 	replayInput = func(v *Violation) int {
+		if ls, ok := v.Params["lines"].([]interface{}); ok && v.Property == "C09" {
+			var want []string
+			for _, x := range ls {
+				s, _ := x.(string)
+				want = append(want, s)
+			}
+			oracle, msg := c09LinesSession(want)
+			if oracle != "" {
+				fmt.Printf("FINDING oracle=%s %s\n", oracle, msg)
+			}
+			if oracle == v.Oracle {
+				fmt.Println("REPRODUCED")
+				return 1
+			}
+			fmt.Println("NOT REPRODUCED")
+			return 0
+		}
 		l, ok := v.Params["ladder"].([]interface{})
 		if v.Property != "C09" || !ok {
 			if prev != nil {
@@ -484,7 +524,7 @@ func init() {
 	}
 	Register(&Prop{
 		ID:   "C09",
-		Rule: "2-3 concurrent user senders x 1-3 lines (alternating Raw / Privmsg), optionally a foreground handler answering 1-2 incoming events with 1-2 lines, server reading at once or through a 64-byte pipe drained line by line by a server task, queue capacity 32 / 2 / 1, senders started after or during registration; 2-4 concurrent senders of messages that SplitLen = 60 splits into 3-4 lines each (Privmsg, Notice, Ctcp, CtcpReply to different targets, mixed or all senders using the same method after a warm-up message; expected lines = what the same calls produce alone); one sender with Raw lines of every length 1..1300 and around 2048 / 4096 / 8192 bytes compared byte for byte; small harnesses are explored without any deviation bound (state cache), the rest within K<=2-3; distinct = distinct wire transcripts per scenario",
+		Rule: "2-3 concurrent user senders x 1-3 lines (alternating Raw / Privmsg), optionally a foreground handler answering 1-2 incoming events with 1-2 lines, server reading at once or through a 64-byte pipe drained line by line by a server task, queue capacity 32 / 2 / 1, senders started after or during registration; 2-4 concurrent senders of messages that SplitLen = 60 splits into 3-4 lines each (Privmsg, Notice, Ctcp, CtcpReply to different targets, mixed or all senders using the same method after a warm-up message; expected lines = what the same calls produce alone); one sender with Raw lines of every length 1..1300 and around 2048 / 4096 / 8192 bytes compared byte for byte, plus lines that begin / end in or consist of white space; a server ERROR line that is not followed by a hang-up; small harnesses are explored without any deviation bound (state cache), the rest within K<=2-3; distinct = distinct wire transcripts per scenario",
 		Assumptions: []string{
 			"interleavings at synchronisation/channel/socket granularity (DESIGN.md 3.8)",
 			"unbounded mode relies on the happens-before state cache; cache-on/off agreement is cross-checked at a small bound",
@@ -548,6 +588,9 @@ func init() {
 			}
 			jobs = append(jobs, ExploreJob("C09", ExploreSpec{Sc: c09SplitScenarioM(3, 2, 2, 0), Variants: []int{1, 2, 3}, Budgets: b2, Cache: true}, 30))
 			jobs = append(jobs, c09LadderJob())
+			// an ERROR line from a server that does not hang up afterwards: the connection is up, lines are still due
+			add(c09Params{Senders: 2, Lines: 2, SrvErr: true}, b2, []int{1, 2, 3}, 20, false)
+			add(c09Params{Senders: 1, Lines: 2, Events: 1, HLines: 2, Pings: 1, SrvErr: true, Overlap: true}, b2, []int{1, 2, 3}, 20, false)
 			// many lines through the real queue: senders really block on the 32-slot queue when the server is slow
 			add(c09Params{Senders: 2, Lines: 40, Slow: true}, []explore.Budget{{0, 0}, {1, 0}}, []int{1, 2, 3}, 60, false)
 			return jobs
